@@ -71,6 +71,7 @@ structure Nd where
   failed : Bool := false    -- runF is returning an error
   done : Bool := false      -- node goroutine finished (errCh written)
   panicked : Bool := false  -- ghost: a helper goroutine of this node sent on a closed channel (the process dies)
+  owed : Nat := 0           -- TREE model only (Model/C07Tree.lean): the parent's forward loop still has to Collect the message it holds into THIS input edge (0/1); the chain model never touches it
   deriving DecidableEq, Repr, Inhabited
 
 def isBarrier : Kind → Bool
